@@ -157,6 +157,14 @@ def struct_stages(tier, seg_depth_q=1, seg_depth_t=2, extra_kinds=()):
     ]
 
 
+def with_constructor_variants(prop, tier, res):
+    """E3: every way of obtaining a SolutionTracks from every forest (ids computed, valid ids
+    given and kept, Tracks -> from_tracks with / without / with partial ids)"""
+    from . import smallscope as ss
+    return merge_results(res, run_e3(prop, tier, [("ctor", "constructor variants on all forests", lambda: ss.ctor_cases(tier))],
+                                     time_budget=budget(tier, 60, 600)))
+
+
 def with_history_invariants(prop, tier, res):
     """E2: the state invariant of `prop` re-checked after every undo / redo of every call
     sequence of the C02 menus (deep undo/redo interleavings that the BFS probe does not reach)"""
@@ -167,17 +175,17 @@ def with_history_invariants(prop, tier, res):
 
 def check_c04(tier):
     res = run_e1("C04", tier, struct_stages(tier), dict(undo_probe=True), time_budget=budget(tier, 100, 1500))
-    return with_history_invariants("C04", tier, res)
+    return with_constructor_variants("C04", tier, with_history_invariants("C04", tier, res))
 
 
 def check_c05(tier):
     res = run_e1("C05", tier, struct_stages(tier), dict(undo_probe=True), time_budget=budget(tier, 100, 1500))
-    return with_history_invariants("C05", tier, res)
+    return with_constructor_variants("C05", tier, with_history_invariants("C05", tier, res))
 
 
 def check_c06(tier):
     res = run_e1("C06", tier, struct_stages(tier), dict(undo_probe=True), time_budget=budget(tier, 100, 1500))
-    return with_history_invariants("C06", tier, res)
+    return with_constructor_variants("C06", tier, with_history_invariants("C06", tier, res))
 
 
 def check_c11(tier):
@@ -229,13 +237,24 @@ def merge_results(a, b):
         cov[k] = cov.get(k, 0) + cb.get(k, 0)
     cov["exhaustive"] = bool(cov.get("exhaustive")) and bool(cb.get("exhaustive"))
     cov["caps"] = list(cov.get("caps", [])) + list(cb.get("caps", []))
-    cov["feature_switching_sequences"] = cb.get("menus")
+    if cb.get("menus"):
+        cov["call_sequence_menus"] = list(cov.get("call_sequence_menus", [])) + cb["menus"]
+    if cb.get("parts"):
+        cov["input_enumeration_parts"] = list(cov.get("input_enumeration_parts", [])) + cb["parts"]
     cov["samples"] = list(cov.get("samples", [])) + list(cb.get("samples", []))[:2]
     cov["rule"] = cov.get("rule", "") + " || " + cb.get("rule", "")
     ra, rb = a["replay_fn"], b["replay_fn"]
 
     def replay_fn(rec):
-        return rb(rec) if rec.get("engine") == "E2" else ra(rec)
+        # each engine's replay function recognises its own artefacts
+        for fn in (ra, rb):
+            try:
+                r = fn(rec)
+            except (KeyError, TypeError, AttributeError):
+                continue
+            if r:
+                return r
+        return []
 
     return {"coverage": cov, "violations": a["violations"] + b["violations"], "replay_fn": replay_fn,
             "assumptions": a.get("assumptions", [])}
